@@ -285,3 +285,10 @@ def run(ctx, rep):
     errsend = [o for o in dpr if "call" in o and o["call"].endswith("Sender::<T>::send")]
     ev.watch = None
     rep.note("R2.4: every emission is a StatType::Error; its way into the error counter and the exit status is decided by C14 (R14.2, R14.4) and C16")
+    # ---------------- R2.5 the predicates are the documented ones
+    # "detected" needs the test in front of each code to be the documented one: the predicate rules of the word
+    # classification (C09), the RDH rules (C10), the status/data word rules (C11), the payload cut (C12), the stave
+    # rules (C13) and the custom checks (C20) are necessary conditions of C02 too and run here under their own rule ids.
+    from . import c09, c10, c11, c12, c13, c20
+    for m in (c09, c10, c11, c12, c13, c20):
+        m.run(ctx, rep)
